@@ -45,6 +45,14 @@ def SAct.loose : SAct → Bool
   | _ => false
 
 
+/-- dropped from both sides in the attribution mode `dropLoose`: writes that do not read the output
+    they write (reading `$last` is allowed: the last execution is the one that counts) -/
+def SAct.dropL : SAct → Bool
+  | .set i e => !(IExpr.readsOut i e)
+  | .setStr _ _ => true
+  | .delete _ => true
+  | _ => false
+
 /-- what runs for every byte a match consumes: `foreach` actions, then `+=` appends -/
 structure PerChar where
   acts : List SAct := []
@@ -140,7 +148,7 @@ def perCharTree (c : Ctx) (pc : PerChar) (k : STree) (oos : STree) : STree :=
     match a with
     | .appendC i e => Tree.ask (.full i) oos (.emit (.appendC i (subst c.o c.x e)) k)
     | a => match actEv c a with
-      | some ev => if a.loose && c.o.dropLoose then k else .emit ev k
+      | some ev => if a.dropL && c.o.dropLoose then k else .emit ev k
       | none => k) appends
 
 /-- perform the pending loose actions -/
@@ -148,6 +156,28 @@ def flushT (pend : List AEv) (k : STree) : STree := pend.foldr (fun e k => .emit
 
 /-- the pending loose actions, each marked "may or may not have run" -/
 def optT (pend : List AEv) (k : STree) : STree := pend.foldr (fun e k => .emit (.opt e) k) k
+
+/-- The assignments / deletes that the compiled machines lose when a construct that can match
+    nothing is skipped: those that run up to the end of the enclosing blocks (a block that still
+    has a match to come keeps its actions: they are carried by the transitions into that match).
+    Returns the continuation with the lost actions removed. -/
+def lossyTail (c : Ctx) : Nat → Kont → Kont
+  | 0, K => K
+  | fuel + 1, .run blk pos :: rest =>
+    let stmts := (c.p.blocks.getD blk []).drop pos
+    let isLoose := fun (s : Stmt) => match s with
+      | .act (.set _ _) => true
+      | .act (.setStr _ _) => true
+      | .act (.delete _) => true
+      | .act (.finish _) => true     -- (a finish code that ends the program is lost with them: plain DONE)
+      | _ => false
+    if stmts.all isLoose then lossyTail c fuel rest else .run blk pos :: rest
+  | fuel + 1, .tryMark nm oos h :: rest => .tryMark nm oos h :: lossyTail c fuel rest
+  | _ + 1, K => K
+
+/-- continuation after a construct was skipped without consuming anything -/
+def afterSkip (c : Ctx) (K : Kont) : List AEv × Kont :=
+  if c.o.skipLoses then ([], lossyTail c (K.length + 1) K) else ([], K)
 
 mutual
 /-- Dispatch symbol `x` on continuation `K`; `pend` are the loose actions met so far in this step
@@ -172,12 +202,14 @@ def disp (c : Ctx) : Nat → List AEv → Kont → STree
         | .appendC i e => flushT pend (.ask (.full i) (raise c fuel [] true K') (.emit (.appendC i (subst c.o c.x e)) (disp c fuel [] K')))
         | a => match actEv c a with
           | some ev =>
-            if a.loose && c.o.dropLoose then disp c fuel pend K'
+            if a.dropL && c.o.dropLoose then disp c fuel pend K'
             else flushT pend (.emit ev (disp c fuel [] K'))
           | none => disp c fuel pend K'
       | .cas g pc cl els =>
         disp c fuel pend (.c g pc (cl.flatMap fun cc => cc.1.map fun pr => (pr.1, pr.2, cc.2)) els :: K')
-      | .opt b => if firstBlk c.p 8 b c.x then disp c fuel pend (.run b 0 :: K') else disp c fuel pend K'
+      | .opt b =>
+        if firstBlk c.p 8 b c.x then disp c fuel pend (.run b 0 :: K')
+        else disp c fuel pend (afterSkip c K').2   -- (in the attribution mode the lost actions are not performed)
       | .loop id b => disp c fuel pend (.run b 0 :: .loopMark id b :: K')
       | .try_ b nm oos h => disp c fuel pend (.run b 0 :: .tryMark nm oos h :: K')
       | .ifs bs =>
@@ -195,7 +227,7 @@ def disp (c : Ctx) : Nat → List AEv → Kont → STree
       flushT pend (perCharTree c pc
         (if d.nullable && !d.canContinue then .leaf (.next rest) else .leaf (.next (.m d pc :: rest)))
         (raise c fuel [] true (.m r pc :: rest)))
-    else if r.nullable then disp c fuel pend rest
+    else if r.nullable then disp c fuel pend (afterSkip c rest).2
     else raise c fuel pend false rest
   | fuel + 1, pend, .w r0 r pc :: rest =>
     -- every byte a wait consumes (matched, or skipped at a restart) is a byte of an enclosing
@@ -256,7 +288,17 @@ def raise (c : Ctx) : Nat → List AEv → Bool → Kont → STree
     if c.lp then .emit .raised k else optT pend k
 end
 
-/-- After end-of-input has been consumed by an `end` pattern: run what needs no input. -/
+/-- the block consists of actions only (conditionals over such blocks included) -/
+def actsOnlyBlk (p : Prog) : Nat → Nat → Bool
+  | 0, _ => false
+  | fuel + 1, b => (p.blocks.getD b []).all fun s =>
+      match s with
+      | .act _ => true
+      | .ifs bs => bs.all fun cb => actsOnlyBlk p fuel cb.2
+      | _ => false
+
+/-- After end-of-input has been consumed by an `end` pattern: run what needs no input (actions; an
+    `if` that guards matches is not an action and fails). -/
 def fin (c : Ctx) : Nat → Kont → STree
   | 0, _ => retHaltS "FAIL"
   | _ + 1, [] => retHaltS "DONE"
@@ -273,9 +315,11 @@ def fin (c : Ctx) : Nat → Kont → STree
         | .finish (some code) => retHaltS ("FINISH_" ++ code)
         | .yield code => .emit (.yield code) (fin c fuel K')
         | .brk id => fin c fuel (dropLoop id K')
-        | .appendC i e => .ask (.full i) (retHaltS "FAIL") (.emit (.appendC i (subst c.o c.x e)) (fin c fuel K'))
+        | .appendC i e =>
+          .ask (.full i) (match unwind true K' with | some Kh => fin c fuel Kh | none => retHaltS "FAIL")
+            (.emit (.appendC i (subst c.o c.x e)) (fin c fuel K'))
         | a => match actEv c a with
-          | some ev => if a.loose && c.o.dropLoose then fin c fuel K' else .emit ev (fin c fuel K')
+          | some ev => if a.dropL && c.o.dropLoose then fin c fuel K' else .emit ev (fin c fuel K')
           | none => fin c fuel K'
       | .opt _ => fin c fuel K'
       | .try_ b nm oos h => fin c fuel (.run b 0 :: .tryMark nm oos h :: K')
@@ -287,7 +331,7 @@ def fin (c : Ctx) : Nat → Kont → STree
           | (.const true, b) :: _ => fin c fuel (.run b 0 :: K')
           | (.const false, _) :: more => chain more
           | (.expr e, b) :: more => .ask (.cond (subst c.o c.x e)) (fin c fuel (.run b 0 :: K')) (chain more)
-        chain bs
+        if bs.all (fun cb => actsOnlyBlk c.p 8 cb.2) then chain bs else retHaltS "FAIL"
       | _ => retHaltS "FAIL"
   | fuel + 1, .m r _ :: rest => if r.nullable then fin c fuel rest else retHaltS "FAIL"
   | fuel + 1, .tryMark _ _ _ :: rest => fin c fuel rest
